@@ -106,8 +106,21 @@ func (fr *Frame) callValue(st *State, fv *Val, args []*Val, pos token.Pos, sig *
 	case *ssa.Builtin:
 		return fr.callBuiltin(st, f, nil, args, pos)
 	}
+	if pf, ok := fv.X.(*ParamFn); ok && x.top != nil && x.top.contract != nil && x.top.contract.Calls[pf.name] == "pure" {
+		// assumed (listed): the callback does not write caller-visible memory
+		x.vc.diag("%s: callback parameter %s assumed not to write caller-visible memory (calls %s pure)", fr.fn.String(), pf.name, pf.name)
+		x.bumpAllocTop(st)
+		var res []*Val
+		for i := 0; i < sig.Results().Len(); i++ {
+			r := x.freshVal("cb", sig.Results().At(i).Type())
+			x.refFacts(st, r)
+			res = append(res, r)
+		}
+		return res
+	}
 	x.vc.diag("%s: call through unknown function value at %s: havoc", fr.fn.String(), x.w.fset.Position(pos))
-	// an unknown closure may also write the variables it captured
+	// an unknown closure may write anything it captured
+	x.havocAllHeaps(st)
 	return fr.havocCall(st, args, sig)
 }
 
@@ -378,6 +391,28 @@ func (fr *Frame) callWithContract(st *State, c *FuncContract, fn *ssa.Function, 
 		x.obligeAssume(st, "requires", short+": "+r.Text, pos, g, r.Tags, false)
 	}
 	pre := st.clone()
+	// higher-order callee: `calls P once` runs the closure passed for P in place
+	for i, a := range args {
+		cl, ok := a.X.(*Closure)
+		if !ok || i >= len(pnames) || c.Calls[pnames[i]] != "once" {
+			continue
+		}
+		csig := cl.fn.Signature
+		var cargs []*Val
+		for k := 0; k < csig.Params().Len(); k++ {
+			v := x.freshVal("cbarg", csig.Params().At(k).Type())
+			x.refFacts(st, v)
+			switch under(v.Ty).(type) {
+			case *types.Interface, *types.Pointer:
+				x.vc.assume(tNot(tEq(v.L[0], "0")))
+			}
+			cargs = append(cargs, v)
+		}
+		vals := fr.inlineCall(st, cl.fn, cl.bindings, cargs, pos)
+		for k, v := range vals {
+			env.vars[fmt.Sprintf("%s_r%d", pnames[i], k)] = v
+		}
+	}
 	// frame
 	if len(c.Assigns) > 0 {
 		var heapPats []string
@@ -512,6 +547,7 @@ func (fr *Frame) crashCheck(st *State, pos token.Pos, what string) {
 	}
 	for _, ci := range top.contract.Crash {
 		env := top.specEnv(st)
+		env.lookup = func(s *State, name string) (*Val, bool) { return top.lookupLocal(s, name, token.NoPos) }
 		g, err := env.evalBool(ci.Expr)
 		if err != nil {
 			x.vc.diag("%s: crash_invariant: %v", top.fn.String(), err)
